@@ -228,3 +228,49 @@ Example C17_per_client_satisfiable :
   observe w 1 s_phone_migrate_x (AInt 7) = Some (Ok NoSuchDC) /\
   observe w 2 s_phone_migrate_x (AInt 7) = Some (Ok NoSuchDC).
 Proof. vm_compute. intuition. Qed.
+
+(* --- the request loop of one caller over several data centres -------------------------- *)
+
+(* [make_request fuel .. dc a req []]: makeRequest of one caller; [dc addr req] is the reply of the
+   data centre at addr; Reconnect is assumed to succeed.  After PHONE_MIGRATE_n with n configured
+   at b: the request has been written once to the old and exactly once to the new address, the
+   caller gets the new data centre's answer, and the client stays at b.
+   Sequential, one caller: what happens with several callers at once and with the receive loop is
+   tied to the code by the live correspondence only (lib/props/c17m.py), not by a theorem. *)
+Theorem C17_live_migrate : forall tbl cat dcs dc a b req code n v fuel,
+  table_ok tbl = true -> In pm_entry tbl -> in_int n = true ->
+  dc_lookup n dcs = Some b ->
+  dc a req = RError code (s_phone_migrate_ ++ dec n) ->
+  dc b req = RValue v ->
+  make_request (S (S fuel)) tbl cat dcs dc a req []
+  = {| c_result := CValue v; c_addr := b; c_writes := [(a, req); (b, req)] |}.
+Proof. exact make_request_migrate. Qed.
+Print Assumptions C17_live_migrate.
+
+Theorem C17_live_unconfigured : forall tbl cat dcs dc a req code n fuel,
+  table_ok tbl = true -> In pm_entry tbl -> in_int n = true ->
+  dc_lookup n dcs = None ->
+  dc a req = RError code (s_phone_migrate_ ++ dec n) ->
+  exists e, n_code e = code /\ n_message e = s_phone_migrate_x /\ n_info e = AInt n /\
+    make_request (S fuel) tbl cat dcs dc a req []
+    = {| c_result := CFailed e NoSuchDC; c_addr := a; c_writes := [(a, req)] |}.
+Proof. exact make_request_unconfigured. Qed.
+Print Assumptions C17_live_unconfigured.
+
+Theorem C17_live_other_error : forall tbl cat dcs dc a req code text e fuel,
+  dc a req = RError code text ->
+  to_native tbl cat code text = Ok e -> n_message e <> s_phone_migrate_x ->
+  make_request (S fuel) tbl cat dcs dc a req []
+  = {| c_result := CFailed e Return; c_addr := a; c_writes := [(a, req)] |}.
+Proof. exact make_request_other. Qed.
+Print Assumptions C17_live_other_error.
+
+Example C17_live_satisfiable :
+  let tbl := [pm_entry] in
+  let dcs := [(2%Z, lit "B")] in
+  let dc := fun addr (_ : bytes) =>
+    if beq addr (lit "A") then RError 303 (lit "PHONE_MIGRATE_2") else RValue (lit "answer-of-B") in
+  make_request 5 tbl [] dcs dc (lit "A") (lit "req") []
+  = {| c_result := CValue (lit "answer-of-B"); c_addr := lit "B";
+       c_writes := [(lit "A", lit "req"); (lit "B", lit "req")] |}.
+Proof. vm_compute. reflexivity. Qed.
